@@ -553,6 +553,10 @@ class VarsManager(object):
             for name in tmp_list:
                 if name in self.variables:
                     self.variables[name] = self.variables[new_name_list[0]]
+        # the variable that all members share belongs to new_name_list[0]: keep it first
+        if new_name_list and new_name_list[0] in name_list:
+            name_list.remove(new_name_list[0])
+            name_list.insert(0, new_name_list[0])
         self.same_list.append(name_list)
 
     def get(self, name, val_in_fit=True):
